@@ -128,24 +128,36 @@ def run_hole(case):
         combos = [(tuple(only[0]), None if only[1] is None else tuple(only[1]))]
     cfg = dict(prior="affine", target=None, shift=0.0)
     for mask, ans in combos:
+        # a batch without any finite draw is drawn again: the scripted second batch has one -inf row (so replacement happens too)
+        mask2 = tuple([1] + [0] * (n - 1)) if all(mask) else None
         if all(mask):
-            res.bump("all_inf_masks_left_to_C11")
-            continue
+            res.bump("all_inf_masks_with_redraw")
         hole = targets.Hole(fr, slope=0.3, blobs=blobs_on)
         s = Sampler(targets.pt_affine, hole, n_dim=2, n_particles=n, clustering=False, blobs_dtype="float64" if blobs_on else None)
-        U = np.array([[(0.75 if mask[i] else 0.25) + 0.01 * i, 0.1 + 0.17 * i] for i in range(n)])
+        U1 = np.array([[(0.75 if mask[i] else 0.25) + 0.01 * i, 0.1 + 0.17 * i] for i in range(n)])
+        U2 = None if mask2 is None else np.array([[(0.8 if mask2[i] else 0.2) + 0.013 * i, 0.15 + 0.11 * i] for i in range(n)])
+        U = U1 if mask2 is None else U2
+        eff_mask = mask if mask2 is None else mask2
         rec = []
+        ncall = [0]
 
         def h_rand(t, *a, **k):
             if a == (n, 2):
-                return U.copy()
+                ncall[0] += 1
+                if ncall[0] == 1:
+                    return U1.copy()
+                return (U2 if U2 is not None else U1).copy()
             return OwnedRandom.PASS
+
+        eff_ans = ans
+        if mask2 is not None:
+            eff_ans = (1,)  # the single -inf row of the second batch is replaced by row 1
 
         def h_choice(t, a, size=None, replace=True, p=None):
             rec.append((np.array(a), size))
-            if ans is None:
+            if eff_ans is None:
                 return OwnedRandom.PASS
-            return np.array(ans, dtype=int)
+            return np.array(eff_ans, dtype=int)
 
         cc = dict(case, only=[list(mask), None if ans is None else list(ans)])
         with OwnedRandom(5, handlers={"rand": h_rand, "choice": h_choice}):
@@ -159,10 +171,10 @@ def run_hole(case):
         res.trans += 5
         cur = s.state._current
         want = U.copy()
-        if ans is not None:
-            inf = [i for i in range(n) if mask[i]]
+        if eff_ans is not None:
+            inf = [i for i in range(n) if eff_mask[i]]
             for j, i in enumerate(inf):
-                want[i] = U[ans[j]]
+                want[i] = U[eff_ans[j]]
         for where, (u, x, ll, bl) in (("current", (cur["u"], cur["x"], cur["logl"], cur["blobs"])),
                                       ("history", (s.state._history["u"][-1], s.state._history["x"][-1], s.state._history["logl"][-1],
                                                    s.state._history["blobs"][-1] if blobs_on else None))):
